@@ -16,6 +16,47 @@ use crate::positions::{self, Kind};
 
 pub struct C02;
 
+#[derive(Debug, Clone, Copy, PartialEq, Eq, PartialOrd, Ord, Hash)]
+pub enum PosKind {
+    /// before an element (item, statement, field, variant, arm, parameter, argument)
+    Before,
+    /// directly after an element, before its separator
+    AfterElem,
+    /// after an element and its separator (end of that line)
+    AfterSep,
+    /// a token gap inside a statement of a function body
+    Inside,
+}
+
+/// Claimed comment positions with their kind and the kind of node they belong to.
+pub fn positions_kinded(text: &str, edition: u16) -> Option<Vec<(usize, PosKind, Kind)>> {
+    let nodes = parse::with_crate(text, edition, |k, ps| positions::collect(k, ps)).ok()?;
+    let bytes = text.as_bytes();
+    let mut out: Vec<(usize, PosKind, Kind)> = vec![];
+    for n in &nodes {
+        out.push((n.lo, PosKind::Before, n.kind));
+        out.push((n.hi, PosKind::AfterElem, n.kind));
+        let mut j = n.hi;
+        while j < bytes.len() && (bytes[j] == b' ' || bytes[j] == b'\t') {
+            j += 1;
+        }
+        if j < bytes.len() && (bytes[j] == b',' || bytes[j] == b';') {
+            out.push((j + 1, PosKind::AfterSep, n.kind));
+        }
+    }
+    let toks: Vec<_> = crate::lex::lex(text).into_iter().filter(|t| !t.is_trivia()).collect();
+    for n in nodes.iter().filter(|n| n.kind == Kind::Stmt && n.in_fn) {
+        for w in toks.windows(2) {
+            if w[0].start >= n.lo && w[1].end <= n.hi {
+                out.push((w[0].end, PosKind::Inside, Kind::Stmt));
+            }
+        }
+    }
+    out.sort();
+    out.dedup_by_key(|x| x.0);
+    Some(out)
+}
+
 /// Claimed comment positions of a program: (offset, styles allowed there).
 pub fn claimed_positions(text: &str, edition: u16, inside_stmts: bool) -> Option<Vec<(usize, bool)>> {
     // returns (offset, eol) : eol = position is after an element (end of line),
@@ -132,7 +173,7 @@ impl Prop for C02 {
     }
     fn units(&self, tier: Tier) -> Vec<Unit> {
         let thorough = tier == Tier::Thorough;
-        corpus_units(
+        let mut units = corpus_units(
             &Space {
                 k: if thorough { 2 } else { 1 },
                 ctx_limit: if thorough { 99 } else { 2 },
@@ -147,7 +188,12 @@ impl Prop for C02 {
                 l1: thorough,
             },
             None,
-        )
+        );
+        if !thorough {
+            // quick: deviated configurations start from the one-line layout only
+            units.retain(|u| u.cfg.kv.is_empty() || u.key.ends_with("/L0"));
+        }
+        units
     }
     fn check(&self, u: &Unit, tier: Tier, sink: &mut Sink) {
         if !parse::parses(&u.text, u.cfg.edition) {
@@ -167,8 +213,12 @@ impl Prop for C02 {
             let inner = &u.key[u.key.find('[').unwrap() + 1..u.key.find(']').unwrap()];
             inner.split(',').all(|c| c == "0" || c.is_empty())
         };
-        if !thorough && !(base_form && u.key.ends_with("/L0")) {
-            return;
+        if !thorough {
+            // quick: comments on base forms, one-line layout, first context of the kind, style edition 2024
+            let first_ctx = ["@top/", "@impl/", "@fn/", "@let/", "@alias/", "@file/"].iter().any(|c| u.key.contains(c));
+            if !(base_form && u.key.ends_with("/L0") && first_ctx && u.cfg.style_edition == 2024) {
+                return;
+            }
         }
         let Some(pos) = claimed_positions(&u.text, u.cfg.edition, true) else { return };
         for (off, eol) in pos {
